@@ -392,3 +392,100 @@ func knobMisuse(v ssa.Value, depth int) string {
 	}
 	return ""
 }
+
+// ruleConditionFilterInstalled: the weighted-graph engine installs the condition filter unless the edge is
+// provably unconditioned: conditions is empty, or it has exactly one entry and that entry is NoCond.
+// A skip path must therefore pass (A) an empty-list edge, or BOTH (B1) a "at most one entry" edge and
+// (B2) a "first entry is NoCond" edge.  (A or B1) and (A or B2) are two must-pass checks.
+func ruleConditionFilterInstalled(e *Engine, r *Reporter) {
+	r.Rule("condition-filter-skip-only-when-unconditioned", "every path of a weighted-graph iterator builder that does not install BuildConditionTupleKeyFilter passes an edge proving the condition list is empty, or both an edge proving it has at most one entry and an edge proving that entry is NoCond", 3)
+	lenOf := func(v ssa.Value) bool {
+		c, ok := unwrap(v).(*ssa.Call)
+		if !ok {
+			return false
+		}
+		b, ok := c.Call.Value.(*ssa.Builtin)
+		return ok && b.Name() == "len"
+	}
+	cmpLen := func(f Fact, k int64) (implied bool) {
+		// does the fact imply len <= k ?
+		if !lenOf(f.X) {
+			return false
+		}
+		n, ok := constInt(f.Y)
+		if !ok {
+			return false
+		}
+		switch f.Kind {
+		case ">":
+			return !f.Positive && n <= k
+		case ">=":
+			return !f.Positive && n <= k+1
+		case "<":
+			return f.Positive && n <= k+1
+		case "<=":
+			return f.Positive && n <= k
+		case "eq":
+			return f.Positive && n <= k
+		}
+		return false
+	}
+	isEmpty := func(f Fact) bool { return cmpLen(f, 0) }
+	atMostOne := func(f Fact) bool { return cmpLen(f, 1) }
+	firstIsNoCond := func(f Fact) bool {
+		if f.Kind != "eq" || !f.Positive {
+			return false
+		}
+		if s, ok := constString(f.Y); !ok || s != "" {
+			return false
+		}
+		u, ok := unwrap(f.X).(*ssa.UnOp)
+		if !ok {
+			return false
+		}
+		ia, ok := u.X.(*ssa.IndexAddr)
+		if !ok {
+			return false
+		}
+		n, ok := constInt(ia.Index)
+		return ok && n == 0
+	}
+	n := 0
+	for _, fn := range e.Fns {
+		if short(pkgOf(fn)) != "internal/check" {
+			continue
+		}
+		var call ssa.Instruction
+		eachInstr(fn, false, func(in ssa.Instruction) {
+			if isCallNamed(in, "BuildConditionTupleKeyFilter") {
+				call = in
+			}
+		})
+		if call == nil {
+			continue
+		}
+		n++
+		okRet := func(in ssa.Instruction) bool {
+			ret, ok := in.(*ssa.Return)
+			if !ok {
+				return false
+			}
+			if len(ret.Results) > 0 {
+				last := ret.Results[len(ret.Results)-1]
+				if isErrorType(last.Type()) && !isNilConst(last) {
+					return false
+				}
+			}
+			return true
+		}
+		c1 := cutSpec{instr: func(in ssa.Instruction) bool { return in == call }, edge: func(f Fact) bool { return isEmpty(f) || atMostOne(f) }}
+		c2 := cutSpec{instr: func(in ssa.Instruction) bool { return in == call }, edge: func(f Fact) bool { return isEmpty(f) || firstIsNoCond(f) }}
+		r1, _ := reachable(fn, nil, okRet, c1)
+		r2, _ := reachable(fn, nil, okRet, c2)
+		r.Check(!r1 && !r2, fname(fn)+" | condition filter skipped only for an unconditioned edge", e.instrPos(call), "skip paths prove len<=1 and conditions[0]==NoCond (or an empty list)",
+			fmt.Sprintf("the condition filter can be skipped on a path that does not establish that the edge is unconditioned (skip without len<=1: %v, skip without first==NoCond: %v): conditional tuples on such an edge count as satisfied without their condition being evaluated", r1, r2))
+	}
+	if n == 0 {
+		blind("condition-filter-skip: no BuildConditionTupleKeyFilter call found in internal/check")
+	}
+}
